@@ -27,6 +27,7 @@ type Codes struct {
 	OnfBundle       map[string]int64             `json:"onf_bundle_exp_type"`
 	Controller      map[string]string            `json:"controller_kinds"`
 	SwitchKinds     map[string]string            `json:"switch_kinds"`
+	CtStateBits     map[string]int64             `json:"ct_state_bits"`
 	Extra           map[string]json.RawMessage   `json:"-"`
 }
 
